@@ -324,4 +324,5 @@ func childCron(o *output) {
 	o.add(tr)
 	o.count("cron_name_waves", int64(waves))
 	o.count("cron_first_time_spellings", int64(len(sps)))
+	cronZoneWaves(o, r, sub)
 }
